@@ -48,6 +48,7 @@ value = st.one_of(
     # one-byte scalars around the deletion marker's byte value (the marker itself is the opaque blob 0x7f only)
     st.builds(lambda dt, v: {"t": "arr", "dt": dt, "v": v}, st.sampled_from(["i1", "u1"]), st.sampled_from([127, 126, 0, 1])),
     st.builds(lambda v: {"t": "bool", "v": v}, st.booleans()),
+    st.sampled_from([["ff", "61"], ["4dfc6c6c6572", "4d65696572"], ["61", "62"]]).map(lambda v: {"t": "strarr", "v": v}),
 )
 bad_value = st.sampled_from(["object", "nulbytes", "ragged", "dict"]).map(lambda h: {"t": "bad", "v": h})
 small_value = st.one_of(st.builds(lambda v: {"t": "int", "v": v}, st.integers(0, 9)), value)
